@@ -80,6 +80,8 @@ struct Case {
     /// must close the connections by itself and the serve future must still resolve
     keep_clients: bool,
     max_age_ms: Option<u64>,
+    /// number of accept errors the listener reports (each one an event of the alphabet)
+    accept_errs: usize,
 }
 
 fn steps_of(shape: Shape) -> usize {
@@ -126,6 +128,8 @@ fn body(c: &Case, ch: &Chooser) -> Outcome {
         let server = EchoServer::new(Gated { gates: gates.clone(), invoked: invoked.clone() });
         let (sig_tx, sig_rx) = tokio::sync::oneshot::channel::<()>();
         let switch_outer = Arc::new(vnet::ListenerSwitch::default());
+        let (err_tx, err_rx) = mpsc::unbounded_channel::<std::io::Error>();
+        let mut errs_left = c.accept_errs;
         let serve_done = Arc::new(AtomicBool::new(false));
         let open_cell_outer: Arc<Mutex<Option<usize>>> = Arc::new(Mutex::new(None));
         let serve_res: Arc<Mutex<Option<Result<(), String>>>> = Arc::new(Mutex::new(None));
@@ -144,7 +148,8 @@ fn body(c: &Case, ch: &Chooser) -> Outcome {
             let mut yielded = 0usize;
             use tokio_stream::StreamExt;
             let switch = switch_outer.clone();
-            let incoming = vnet::switched(Box::pin(vnet::incoming(rx)), switch).map(move |io| {
+            let accept_errors = tokio_stream::wrappers::UnboundedReceiverStream::new(err_rx).map(Err::<vnet::NetIo, std::io::Error>);
+            let incoming = vnet::switched(Box::pin(vnet::incoming(rx).merge(accept_errors)), switch).map(move |io| {
                 yielded += 1;
                 if on_accept && yielded > initial_conns {
                     af1.0.store(true, Ordering::SeqCst);
@@ -203,6 +208,7 @@ fn body(c: &Case, ch: &Chooser) -> Outcome {
                 Step(usize),
                 Signal,
                 Offer,
+                AcceptErr,
             }
             let mut en: Vec<E> = vec![];
             for k in 0..n {
@@ -217,7 +223,10 @@ fn body(c: &Case, ch: &Chooser) -> Outcome {
             } else if c.offer_after && !offered {
                 en.push(E::Offer);
             }
-            if en.is_empty() {
+            if errs_left > 0 && !offered {
+                en.push(E::AcceptErr);
+            }
+            if en.is_empty() || en.iter().all(|e| matches!(e, E::AcceptErr)) {
                 break;
             }
             let ev = en[ch.pick(en.len())];
@@ -272,6 +281,12 @@ fn body(c: &Case, ch: &Chooser) -> Outcome {
                     }
                 }
                 E::Offer => offer_now = true,
+                E::AcceptErr => {
+                    // what accept(2) reports when descriptors run out, resp. when the peer gave up
+                    let e = if errs_left % 2 == 1 { std::io::Error::other("too many open files") } else { std::io::Error::new(std::io::ErrorKind::ConnectionAborted, "aborted") };
+                    errs_left -= 1;
+                    let _ = err_tx.send(e);
+                }
             }
             if offer_now && !offered {
                 offered = true;
@@ -450,42 +465,49 @@ fn cases(tier: Tier) -> Vec<Case> {
     // idle-connection variant)
     for conns in [0usize, 1] {
         for seed in 0..8 {
-            out.push(Case { calls: vec![], conns, chop: 0, seed, offer_after: true, same_step: true, signal_on_accept: false, end_incoming: false, keep_clients: false, max_age_ms: None });
+            out.push(Case { calls: vec![], conns, chop: 0, seed, offer_after: true, same_step: true, signal_on_accept: false, end_incoming: false, keep_clients: false, max_age_ms: None, accept_errs: 0 });
         }
-        out.push(Case { calls: vec![], conns, chop: 0, seed: 0, offer_after: true, same_step: false, signal_on_accept: false, end_incoming: false, keep_clients: false, max_age_ms: None });
+        out.push(Case { calls: vec![], conns, chop: 0, seed: 0, offer_after: true, same_step: false, signal_on_accept: false, end_incoming: false, keep_clients: false, max_age_ms: None, accept_errs: 0 });
         for chop in [0usize, 2] {
-            out.push(Case { calls: vec![], conns, chop, seed: 0, offer_after: true, same_step: true, signal_on_accept: true, end_incoming: false, keep_clients: false, max_age_ms: None });
+            out.push(Case { calls: vec![], conns, chop, seed: 0, offer_after: true, same_step: true, signal_on_accept: true, end_incoming: false, keep_clients: false, max_age_ms: None, accept_errs: 0 });
+        }
+    }
+    // the listener reports accept errors (descriptor exhaustion, aborted handshakes) around the signal
+    for seed in 0..4 {
+        for accept_errs in [1usize, 2] {
+            out.push(Case { calls: vec![], conns: 0, chop: 0, seed, offer_after: true, same_step: false, signal_on_accept: false, end_incoming: false, keep_clients: false, max_age_ms: None, accept_errs });
+            out.push(Case { calls: vec![(Shape::Unary, 0)], conns: 1, chop: 0, seed, offer_after: true, same_step: false, signal_on_accept: false, end_incoming: false, keep_clients: false, max_age_ms: None, accept_errs });
         }
     }
     for s in [Shape::Unary, Shape::ServerStream] {
-        out.push(Case { calls: vec![(s, 0)], conns: 1, chop: 0, seed: 0, offer_after: true, same_step: true, signal_on_accept: true, end_incoming: false, keep_clients: false, max_age_ms: None });
+        out.push(Case { calls: vec![(s, 0)], conns: 1, chop: 0, seed: 0, offer_after: true, same_step: true, signal_on_accept: true, end_incoming: false, keep_clients: false, max_age_ms: None, accept_errs: 0 });
         // the listener ends while calls are in flight
-        out.push(Case { calls: vec![(s, 0)], conns: 1, chop: 0, seed: 0, offer_after: false, same_step: false, signal_on_accept: false, end_incoming: true, keep_clients: false, max_age_ms: None });
-        out.push(Case { calls: vec![(s, 0), (Shape::Unary, 1)], conns: 2, chop: 2, seed: 0, offer_after: false, same_step: false, signal_on_accept: false, end_incoming: true, keep_clients: false, max_age_ms: None });
+        out.push(Case { calls: vec![(s, 0)], conns: 1, chop: 0, seed: 0, offer_after: false, same_step: false, signal_on_accept: false, end_incoming: true, keep_clients: false, max_age_ms: None, accept_errs: 0 });
+        out.push(Case { calls: vec![(s, 0), (Shape::Unary, 1)], conns: 2, chop: 2, seed: 0, offer_after: false, same_step: false, signal_on_accept: false, end_incoming: true, keep_clients: false, max_age_ms: None, accept_errs: 0 });
         // max_connection_age elapsing before / after the signal
         for age in [2u64, 5] {
-            out.push(Case { calls: vec![(s, 0)], conns: 1, chop: 0, seed: 1, offer_after: false, same_step: false, signal_on_accept: false, end_incoming: false, keep_clients: false, max_age_ms: Some(age) });
+            out.push(Case { calls: vec![(s, 0)], conns: 1, chop: 0, seed: 1, offer_after: false, same_step: false, signal_on_accept: false, end_incoming: false, keep_clients: false, max_age_ms: Some(age), accept_errs: 0 });
         }
     }
     // clients that keep their idle channels: the server must close the connections itself
     for calls in [vec![(Shape::Unary, 0)], vec![(Shape::ServerStream, 0), (Shape::Unary, 1)], vec![]] {
         let conns = calls.iter().map(|(_, c)| c + 1).max().unwrap_or(1);
-        out.push(Case { calls, conns, chop: 0, seed: 0, offer_after: false, same_step: false, signal_on_accept: false, end_incoming: false, keep_clients: true, max_age_ms: None });
+        out.push(Case { calls, conns, chop: 0, seed: 0, offer_after: false, same_step: false, signal_on_accept: false, end_incoming: false, keep_clients: true, max_age_ms: None, accept_errs: 0 });
     }
-    out.push(Case { calls: vec![(Shape::Unary, 0), (Shape::ServerStream, 0)], conns: 1, chop: 0, seed: 1, offer_after: false, same_step: false, signal_on_accept: false, end_incoming: false, keep_clients: false, max_age_ms: Some(2) });
+    out.push(Case { calls: vec![(Shape::Unary, 0), (Shape::ServerStream, 0)], conns: 1, chop: 0, seed: 1, offer_after: false, same_step: false, signal_on_accept: false, end_incoming: false, keep_clients: false, max_age_ms: Some(2), accept_errs: 0 });
     for (i, (calls, conns)) in call_sets.iter().enumerate() {
         let chops: Vec<usize> = if tier == Tier::Thorough { vec![0, 2, 3] } else { vec![[0, 2, 3][i % 3]] };
         for chop in chops {
-            out.push(Case { calls: calls.clone(), conns: *conns, chop, seed: 0, offer_after: true, same_step: false, signal_on_accept: false, end_incoming: false, keep_clients: false, max_age_ms: None });
+            out.push(Case { calls: calls.clone(), conns: *conns, chop, seed: 0, offer_after: true, same_step: false, signal_on_accept: false, end_incoming: false, keep_clients: false, max_age_ms: None, accept_errs: 0 });
             if calls.len() == 1 || tier == Tier::Thorough {
                 for seed in 0..4 {
-                    out.push(Case { calls: calls.clone(), conns: *conns, chop, seed, offer_after: true, same_step: true, signal_on_accept: false, end_incoming: false, keep_clients: false, max_age_ms: None });
+                    out.push(Case { calls: calls.clone(), conns: *conns, chop, seed, offer_after: true, same_step: true, signal_on_accept: false, end_incoming: false, keep_clients: false, max_age_ms: None, accept_errs: 0 });
                 }
             }
         }
         if tier == Tier::Thorough && calls.len() <= 2 {
             for age in [2u64, 6] {
-                out.push(Case { calls: calls.clone(), conns: *conns, chop: 0, seed: 1, offer_after: false, same_step: false, signal_on_accept: false, end_incoming: false, keep_clients: false, max_age_ms: Some(age) });
+                out.push(Case { calls: calls.clone(), conns: *conns, chop: 0, seed: 1, offer_after: false, same_step: false, signal_on_accept: false, end_incoming: false, keep_clients: false, max_age_ms: Some(age), accept_errs: 0 });
             }
         }
     }
@@ -496,9 +518,9 @@ pub fn property(tier: Tier) -> Property {
     let sec = Section::new(
         "shutdown-schedules",
         Config { hang_secs: 60, ..Default::default() },
-        "cases: 1..2 (thorough 3) concurrent calls (unary: 1 gated handler step; server-streaming: message, message, end = 3 gated steps) on 1..2 connections x pipe fragmentation pattern x {new connection offered after the signal has settled | in the same step as the signal under 4 RNG seeds} ; the listener's incoming stream ending instead of the signal firing; max_connection_age elapsing before/after the signal; environment: the explorer enumerates EVERY interleaving of {start call k, release next handler step of call k, fire the shutdown signal, offer a new connection} consistent with causality (choices cost nothing), each event followed by quiescence in virtual time, on the real Server::serve_with_incoming_shutdown over in-memory pipes; RefShutdown: every call whose handler was invoked ends with its full outcome; no call hangs; the serve future is unresolved while an accepted call has steps outstanding (and before any signal), resolves after the last one finishes and the clients are gone, never with Err; a connection offered after signal+quiescence never reaches a handler and does not hang once serving ended. Non-trivial = the signal landed strictly between a call's start and its last handler step.",
+        "cases: 1..2 (thorough 3) concurrent calls (unary: 1 gated handler step; server-streaming: message, message, end = 3 gated steps) on 1..2 connections x pipe fragmentation pattern x {new connection offered after the signal has settled | in the same step as the signal under 4 RNG seeds} ; the listener's incoming stream ending instead of the signal firing; max_connection_age elapsing before/after the signal; the listener reporting 1..2 accept errors at any point before the new connection is offered; environment: the explorer enumerates EVERY interleaving of {start call k, release next handler step of call k, fire the shutdown signal, offer a new connection, report an accept error} consistent with causality (choices cost nothing), each event followed by quiescence in virtual time, on the real Server::serve_with_incoming_shutdown over in-memory pipes; RefShutdown: every call whose handler was invoked ends with its full outcome; no call hangs; the serve future is unresolved while an accepted call has steps outstanding (and before any signal), resolves after the last one finishes and the clients are gone, never with Err; a connection offered after signal+quiescence never reaches a handler and does not hang once serving ended. Non-trivial = the signal landed strictly between a call's start and its last handler step.",
         cases(tier),
-        |c: &Case| format!("calls={:?} conns={} chop={} seed={} offer_after={} same_step={} signal_on_accept={} end_incoming={} keep_clients={} max_age={:?}", c.calls, c.conns, c.chop, c.seed, c.offer_after, c.same_step, c.signal_on_accept, c.end_incoming, c.keep_clients, c.max_age_ms),
+        |c: &Case| format!("calls={:?} conns={} chop={} seed={} offer_after={} same_step={} signal_on_accept={} end_incoming={} keep_clients={} max_age={:?} accept_errs={}", c.calls, c.conns, c.chop, c.seed, c.offer_after, c.same_step, c.signal_on_accept, c.end_incoming, c.keep_clients, c.max_age_ms, c.accept_errs),
         body,
     )
     .mins(100, 10, 20);
